@@ -1,10 +1,12 @@
 use crate::sup::{Check, Ctx};
 
+pub mod c01;
 pub mod c06;
 pub mod c15;
 
 pub fn make(id: &str) -> Option<Box<dyn Check>> {
     match id {
+        "C01" => Some(Box::new(c01::C01::new())),
         "C06" => Some(Box::new(c06::C06::new())),
         "C15" => Some(Box::new(c15::C15::new())),
         _ => None,
